@@ -239,13 +239,14 @@ inductive StrStep where
   | err (e : PErr)
 
 /-- the tail of the loop body: a pending high surrogate followed by an ordinary character
-    (string.rs, `if let Some((p_high, high)) = high_surrogate.take() { … } result.push(c)`) -/
+    (string.rs, `if let Some((p_high, high)) = high_surrogate.take() { … } result.push(c)`);
+    `pn` = `p_next`, the offset at which the current element started -/
 def flushChar (o : ParseOptions) (acc : List Char) (high : Option (Nat × Nat)) (c : Char)
-    (r : List Char) (pos : Nat) : StrStep :=
+    (r : List Char) (pos pn : Nat) : StrStep :=
   match high with
   | none => .more (acc ++ [c]) none r pos
   | some (ph, h) =>
-    if o.trunc then .more (acc ++ [fffd, c]) none r pos else .err (.missingLow ph pos h)
+    if o.trunc then .more (acc ++ [fffd, c]) none r pos else .err (.missingLow ph pn h)
 
 /-- decoding of a `\uXXXX` code unit when no high surrogate is pending; `pe` = offset of the `u` -/
 def noHigh (o : ParseOptions) (acc : List Char) (pe : Nat) (cp : Nat) (r : List Char) (pos : Nat) :
@@ -275,13 +276,13 @@ def strEscU (o : ParseOptions) (bad : Bool) (acc : List Char) (high : Option (Na
 
 /-- the `(_, Some('\\')) => match parser.next_char()? { … }` arm; `pos` = offset after the backslash -/
 def strEsc (o : ParseOptions) (bad : Bool) (acc : List Char) (high : Option (Nat × Nat))
-    (r : List Char) (pos : Nat) : StrStep :=
+    (r : List Char) (pos pn : Nat) : StrStep :=
   match r with
   | [] => .err (eofErrAt bad pos)
   | e :: r2 =>
     if e = 'u' then strEscU o bad acc high r2 pos (pos + e.utf8Size)
     else match esc2 e with
-      | some ch => flushChar o acc high ch r2 (pos + e.utf8Size)
+      | some ch => flushChar o acc high ch r2 (pos + e.utf8Size) pn
       | none => .err (.unexpected pos (some e))
 
 /-- one iteration of the `loop` of `SmallString::parse_in` -/
@@ -296,9 +297,9 @@ def strStep (o : ParseOptions) (bad : Bool) (acc : List Char) (high : Option (Na
       | some (ph, h) =>
         if o.trunc then .done (acc ++ [fffd]) r (pos + c.utf8Size) pos
         else .err (.missingLow ph pos h)
-    else if c = '\\' then strEsc o bad acc high r (pos + c.utf8Size)
+    else if c = '\\' then strEsc o bad acc high r (pos + c.utf8Size) pos
     else if isControl c then .err (.unexpected pos (some c))
-    else flushChar o acc high c r (pos + c.utf8Size)
+    else flushChar o acc high c r (pos + c.utf8Size) pos
 
 theorem hexDigitAt_len {bad l pos h r p} (hh : hexDigitAt bad l pos = .ok (h, r, p)) :
     r.length + 1 = l.length := by
@@ -335,8 +336,8 @@ theorem noHigh_len {o acc pe cp r pos a hi r' p'} (h : noHigh o acc pe cp r pos 
   all_goals (first | cases h | skip)
   all_goals rfl
 
-theorem flushChar_len {o acc high c r pos a hi r' p'}
-    (h : flushChar o acc high c r pos = .more a hi r' p') : r' = r := by
+theorem flushChar_len {o acc high c r pos pn a hi r' p'}
+    (h : flushChar o acc high c r pos pn = .more a hi r' p') : r' = r := by
   unfold flushChar at h
   repeat' (split at h)
   all_goals (first | cases h | skip)
@@ -355,8 +356,8 @@ theorem strEscU_len {o bad acc high r2 pe pos a hi r p}
     all_goals (try cases h)
     all_goals omega
 
-theorem strEsc_len {o bad acc high r pos a hi r' p}
-    (h : strEsc o bad acc high r pos = .more a hi r' p) : r'.length < r.length := by
+theorem strEsc_len {o bad acc high r pos pn a hi r' p}
+    (h : strEsc o bad acc high r pos pn = .more a hi r' p) : r'.length < r.length := by
   unfold strEsc at h
   split at h
   · cases h
